@@ -235,7 +235,11 @@ def gen_grad(rng, i):
         pm["size"] = v
     return dict(stream="grad", ndim=ndim, iso=iso, fn=fn, n=n, clusters=clusters,
                 use_groups=use_groups, param_mode=pm, npseed=rng.randrange(2 ** 31),
-                small_size=rng.random() < 0.25, norm=rng.choice([1.0, 1.0, 37.5, 1e4]))
+                small_size=rng.random() < 0.25, norm=rng.choice([1.0, 1.0, 37.5, 1e4]),
+                # exact special values inside the bounds: a background of exactly 0 (the default a
+                # table without a background column gets; it stays 0 when the mode is const) and a
+                # NEGATIVE ring thickness (shape parameters have no default bound)
+                bg_zero=rng.random() < 0.15, neg_thickness=(fn == "ring" and rng.random() < 0.3))
 
 
 VEC_KINDS = ["inplace", "inplace", "inplace", "poke", "poke", "undo", "same", "same", "strided", "strided",
@@ -565,11 +569,16 @@ def build_grad(inp, attempt):
             params[i, 2 + ndim:2 + ndim + nsz] = base_size * rs.uniform(0.8, 1.25, nsz)
             if fn == "ring":
                 params[i, -1] = rs.uniform(0.12, 0.45)
+                if inp.get("neg_thickness"):
+                    params[i, -1] = -params[i, -1]
+            if inp.get("bg_zero"):
+                params[i, 0] = 0.0
             truth[i] = params[i] * rs.uniform(0.9, 1.1, nvars)
             truth[i, 2:2 + ndim] = coords[j]
         # synthetic image: noise + blobs at the `true` parameters
         idx = np.indices(shape).astype(np.float64)
-        full = full + bgv
+        if not inp.get("bg_zero"):
+            full = full + bgv
         for j, i in enumerate(cl):
             sz = truth[i, 2 + ndim:2 + ndim + (1 if iso else ndim)]
             sz = np.broadcast_to(sz, (ndim,))
